@@ -26,9 +26,19 @@ def run (kv : List (String × String)) : IO Res := do
   let some h := decodeHeader img | return .bad "header"
   let some dir := decodeDirectory img h | return .bad "dir"
   let present (ty : Nat) : Bool := dir.any (fun d => d.ty == ty)
+  -- the steps that copy the target's files or read its memory, in plan order: (number of the directory entry each
+  -- publishes, stream, the step's soft-error label); a target killed when entry `killedAt` was written fails the later ones
+  let targetSteps : List (Nat × Nat × String) :=
+    [(8, ST_LINUX_PROC_STATUS, "WriteThreadProcStatusFailed"), (10, ST_LINUX_CMD_LINE, "WriteCommandLineFailed"),
+     (11, ST_LINUX_ENVIRON, "WriteEnvironmentFailed"), (12, ST_LINUX_AUXV, "WriteAuxvFailed"), (13, ST_LINUX_MAPS, "WriteMapsFailed"),
+     (14, ST_LINUX_DSO_DEBUG, "WriteDSODebugStreamFailed"), (15, ST_MOZ_LINUX_LIMITS, "WriteLimitsFailed"),
+     (17, ST_HANDLE_DATA, "WriteHandleDataStreamFailed")]
+  let killedAt := if scen == "killed" then (getNat kv "killed_at").getD 0 else 0
+  let failedByKill := if killedAt == 0 then [] else targetSteps.filter (fun (e, _, _) => e > killedAt)
   for ty in [ST_THREAD_LIST, ST_MODULE_LIST, ST_MEMORY_LIST, ST_EXCEPTION, ST_SYSTEM_INFO, ST_MEMORY_INFO_LIST,
              ST_THREAD_NAMES, ST_MOZ_SOFT_ERRORS, ST_LINUX_MAPS, ST_LINUX_CMD_LINE, ST_LINUX_ENVIRON, ST_LINUX_AUXV,
              ST_MOZ_LINUX_LIMITS, ST_HANDLE_DATA] do
+    if failedByKill.any (fun (_, t, _) => t == ty) then continue
     if !present ty then return .propfail s!"stream {ty} missing although only best-effort steps failed" tags
   -- (4) every failure reported under the step it belongs to
   let principalUnref := cfg.principal.isSome
@@ -74,6 +84,17 @@ def run (kv : List (String × String)) : IO Res := do
     if !tree.any (·.startsWith "WriteDSODebugStreamFailed") then
       return .propfail "unreadable linker data was not reported" tags
     if present ST_LINUX_DSO_DEBUG then return .propfail "linker debug stream present although its source was garbage" tags
+  | "killed" =>
+    tags := s!"killed.at.{killedAt}" :: tags
+    -- each step that ran against the dead target is listed under its own label, and no step that had completed before
+    for (_, ty, label) in failedByKill do
+      if !tree.any (·.startsWith label) then
+        return .propfail s!"the target died after directory entry {killedAt}: the failure of the step {label} is not listed under it (list: {tree})" tags
+      if present ty then return .propfail s!"stream {ty} present although its step ran against a dead target" tags
+    for (e, _, label) in targetSteps do
+      if e ≤ killedAt && tree.any (·.startsWith label) then
+        return .propfail s!"the target died after directory entry {killedAt}: {label} is listed although that step had completed before (list: {tree})" tags
+    tags := "killed.checked" :: tags
   | "traced" =>
     if !tree.contains "SuspendThreadsErrors/PtraceAttachError/EPERM" then
       return .propfail "a thread that could not be attached was not reported" tags
